@@ -125,7 +125,7 @@ Theorem C19_at_most_once : forall excl dumps D fw_recv handler b_chan j,
 Proof. exact dispatch_at_most_once. Qed.
 Print Assumptions C19_at_most_once.
 
-Theorem C19_once : forall excl dumps D fw_recv handler b_chan e id r, wf_event e ->
+Theorem C19_once : forall excl dumps D fw_recv handler b_chan e id, wf_event e ->
   let e1 := {| ename := ename e; eargs := eargs e; ekwargs := ekwargs e; esuccess := esuccess e;
                efailure := efailure e; enotify := enotify e; echannels := echannels e;
                eattrs := apply_meta excl (dump_meta_ev excl e) [] |} in
@@ -133,7 +133,7 @@ Theorem C19_once : forall excl dumps D fw_recv handler b_chan e id r, wf_event e
                efailure := efailure e; enotify := enotify e;
                echannels := match echannels e with [] => [b_chan] | l => l end;
                eattrs := apply_meta excl (dump_meta_ev excl e) [] |} in
-  is_miss (event_data excl e id) = false -> fw_recv e1 = true -> handler e2 = Some r ->
+  is_miss (event_data excl e id) = false -> fw_recv e1 = true -> handler e2 <> HNone ->
   dispatched (b_packet excl dumps D fw_recv handler b_chan (event_data excl e id)) = [e2].
 Proof. exact dispatch_exactly_once. Qed.
 Print Assumptions C19_once.
@@ -176,9 +176,9 @@ Proof. exact Ex.noresult_ex. Qed.
 (* ---- end to end on one concrete exchange (non-vacuity of the protocol model): the call is cut at
    byte 0..3, dispatched once, and its result reaches the sender *)
 Example C19_roundtrip_ex : forall cut, In cut [0; 1; 2; 3]%nat ->
-  map c_val (a_calls (Ex.final (fun _ => Some (Some Ex.result)) cut)) = [Ex.result]
-  /\ map c_fin (a_calls (Ex.final (fun _ => Some (Some Ex.result)) cut)) = [true]
-  /\ length (b_log (Ex.final (fun _ => Some (Some Ex.result)) cut)) = 1%nat.
+  map c_val (a_calls (Ex.final (fun _ => HVal Ex.result) cut)) = [Ex.result]
+  /\ map c_fin (a_calls (Ex.final (fun _ => HVal Ex.result) cut)) = [true]
+  /\ length (b_log (Ex.final (fun _ => HVal Ex.result) cut)) = 1%nat.
 Proof. exact Ex.roundtrip. Qed.
 
 (* ---- END TO END.  The two-party system [exec] (caller protocol, callee protocol, the two byte channels with
@@ -194,9 +194,8 @@ Proof. exact Ex.roundtrip. Qed.
      the receive firewall and has a handler, nothing otherwise - whatever the mode (fire-and-forget
      sends run once), and nothing for sends rejected by the send firewall (they produced no bytes);
    - the caller's entry of every send is exactly [exp1]: for an accepted call whose handler returns r:
-     finished with value r (that event's result and nothing else); handler raises: never resumed
-     (open finding C19-remote-error-lost); rejected by the receive firewall / no handler: finished with
-     null; sends without result: never resumed; rejected by the send firewall: the rejection marker;
+     finished with value r (that event's result and nothing else); a handler raises: finished with the
+     error flag and the error marker; rejected by the receive firewall / no handler: finished with null; sends without result: never resumed; rejected by the send firewall: the rejection marker;
    - both protocol buffers are empty and the model never left its domain. *)
 Theorem C19_end_to_end :
   forall excl dumps loads fw_send fw_recv handler b_chan ser, json_laws dumps loads ser ->
@@ -213,17 +212,40 @@ Print Assumptions C19_end_to_end.
    instantiated in Coq - see notes: the same-shaped premises of C19_framing are, by the Toy codec) *)
 Example C19_e2e_schedule_ex :
   Forall honest_op [OSend Ex.e0 MCall; OAB 2; OAB 0; OBA 2; OBA 0]
-  /\ wab (Ex.final (fun _ => Some (Some Ex.result)) 2) = []
-  /\ wba (Ex.final (fun _ => Some (Some Ex.result)) 2) = [].
+  /\ wab (Ex.final (fun _ => HVal Ex.result) 2) = []
+  /\ wba (Ex.final (fun _ => HVal Ex.result) 2) = [].
 Proof. exact e2e_schedule_ex. Qed.
 
-(* how to read exp1 / logof *)
-Theorem C19_e2e_call : forall excl fw_send fw_recv handler b_chan e r,
-  fw_send e = true -> outcome excl fw_recv handler b_chan e = Some r ->
-  exp1 excl fw_send fw_recv handler b_chan (e, MCall) = final excl e r
-  /\ c_fin (final excl e r) = true /\ c_val (final excl e r) = r.
+(* how to read exp1 / logof.  An accepted call is always finished, with the peer's answer for its own event:
+   the handler's value (C19_e2e_value), null (C19_e2e_null: rejected by the receive firewall, or no handler),
+   or - when a handler raised, at once or after a yield - the error marker together with the error flag
+   (C19_e2e_error; before fixes/C19_remote_error.patch the sender was never resumed) *)
+Theorem C19_e2e_call : forall excl fw_send fw_recv handler b_chan e, fw_send e = true ->
+  exp1 excl fw_send fw_recv handler b_chan (e, MCall) = final excl fw_recv handler b_chan e
+  /\ c_fin (final excl fw_recv handler b_chan e) = true
+  /\ c_val (final excl fw_recv handler b_chan e) = oval excl fw_recv handler b_chan e.
 Proof. exact exp1_call. Qed.
 Print Assumptions C19_e2e_call.
+Theorem C19_e2e_errflag : forall excl fw_recv handler b_chan e,
+  get k_errors (meta_of excl e) = None ->
+  c_err (final excl fw_recv handler b_chan e) = Some (JBool (oerr excl fw_recv handler b_chan e)).
+Proof. exact final_err. Qed.
+Print Assumptions C19_e2e_errflag.
+Theorem C19_e2e_value : forall excl fw_recv handler b_chan e r,
+  fw_recv (ev1 excl e) = true -> handler (ev2 excl b_chan e) = HVal r ->
+  oval excl fw_recv handler b_chan e = r /\ oerr excl fw_recv handler b_chan e = false.
+Proof. exact oval_val. Qed.
+Print Assumptions C19_e2e_value.
+Theorem C19_e2e_error : forall excl fw_recv handler b_chan e late,
+  fw_recv (ev1 excl e) = true -> handler (ev2 excl b_chan e) = HRaise late ->
+  oval excl fw_recv handler b_chan e = JERR /\ oerr excl fw_recv handler b_chan e = true.
+Proof. exact oval_raise. Qed.
+Print Assumptions C19_e2e_error.
+Theorem C19_e2e_null : forall excl fw_recv handler b_chan e,
+  fw_recv (ev1 excl e) = false \/ handler (ev2 excl b_chan e) = HNone ->
+  oval excl fw_recv handler b_chan e = JNull /\ oerr excl fw_recv handler b_chan e = false.
+Proof. exact oval_null. Qed.
+Print Assumptions C19_e2e_null.
 Theorem C19_e2e_noresult : forall excl fw_send fw_recv handler b_chan e m,
   fw_send e = true -> m <> MCall -> exp1 excl fw_send fw_recv handler b_chan (e, m) = call0.
 Proof. exact exp1_nores. Qed.
@@ -232,20 +254,21 @@ Theorem C19_e2e_rejected : forall excl fw_send fw_recv handler b_chan e m,
   fw_send e = false -> exp1 excl fw_send fw_recv handler b_chan (e, m) = rej_call m.
 Proof. exact exp1_rej. Qed.
 Print Assumptions C19_e2e_rejected.
-Theorem C19_e2e_dispatched : forall excl fw_recv handler b_chan e r,
-  fw_recv (ev1 excl e) = true -> handler (ev2 excl b_chan e) = Some r ->
+Theorem C19_e2e_dispatched : forall excl fw_recv handler b_chan e,
+  fw_recv (ev1 excl e) = true -> handler (ev2 excl b_chan e) <> HNone ->
   logof excl fw_recv handler b_chan e = [ev2 excl b_chan e].
 Proof. exact logof_run. Qed.
 Print Assumptions C19_e2e_dispatched.
 Theorem C19_e2e_blocked : forall excl fw_recv handler b_chan e, fw_recv (ev1 excl e) = false ->
-  logof excl fw_recv handler b_chan e = [] /\ outcome excl fw_recv handler b_chan e = Some JNull.
+  logof excl fw_recv handler b_chan e = [].
 Proof. exact logof_blocked. Qed.
 Print Assumptions C19_e2e_blocked.
 
-(* ---- open finding C19-remote-error-lost.  Full statement (does NOT hold):
-     "whenever the call is dispatched on the peer, the sender's call finishes (result or error flag)".
-   Witness: the handler raises. *)
-Theorem C19_error_flag_refuted : exists h cut,
-  length (b_log (Ex.final h cut)) = 1%nat /\ map c_fin (a_calls (Ex.final h cut)) = [false].
-Proof. exact Ex.error_lost_ex. Qed.
-Print Assumptions C19_error_flag_refuted.
+(* a raising handler (at once / after a yield), one concrete exchange cut at byte 0 or 2: dispatched once,
+   the caller is finished with the error flag and the error marker *)
+Example C19_error_returns_ex : forall late cut, In cut [0; 2]%nat ->
+  length (b_log (Ex.final_err late cut)) = 1%nat
+  /\ map c_fin (a_calls (Ex.final_err late cut)) = [true]
+  /\ map c_err (a_calls (Ex.final_err late cut)) = [Some (JBool true)]
+  /\ map c_val (a_calls (Ex.final_err late cut)) = [JERR].
+Proof. exact Ex.error_returns. Qed.
